@@ -63,7 +63,18 @@ func setDurationField(field reflect.Value, fieldType reflect.Type, isPtr bool, v
 }
 
 // deserializeParams reads row 0 from a record batch into a Go struct.
-func deserializeParams(batch arrow.RecordBatch, target reflect.Type) (reflect.Value, error) {
+func deserializeParams(batch arrow.RecordBatch, target reflect.Type) (params reflect.Value, err error) {
+	// Binding hands client-controlled shapes to reflect setters and Arrow
+	// accessors (an embedded ArrowSerializable payload whose inner columns
+	// differ from the Go fields, a payload or pointer batch without a row 0).
+	// This runs outside the handler's recover on every transport, so a panic
+	// here would end the pipe serve loop or abort the HTTP exchange. Report it
+	// as the same binding error every other malformed parameter batch gets.
+	defer func() {
+		if rv := recover(); rv != nil {
+			params, err = reflect.Value{}, fmt.Errorf("binding parameters: %v", rv)
+		}
+	}()
 	if target.Kind() == reflect.Ptr {
 		target = target.Elem()
 	}
@@ -108,6 +119,13 @@ func deserializeParams(batch arrow.RecordBatch, target reflect.Type) (reflect.Va
 			desc.Schema,
 			batch.Schema(),
 		)
+	}
+
+	// Row 0 is what gets bound. A zero-row batch with columns (an unresolved
+	// pointer batch, which ReadRequest exempts from its row-count check) has
+	// nothing to bind.
+	if batch.NumRows() == 0 && len(desc.Fields) > 0 {
+		return reflect.Value{}, fmt.Errorf("parameter batch has no rows")
 	}
 
 	result := reflect.New(target).Elem()
